@@ -542,3 +542,78 @@ pub fn learn_spec(spec: &NetSpec, job: &LearnJob) -> Option<(Vec<f32>, Vec<Vec<f
     }).ok()?;
     Some((r, net_params(&twin)))
 }
+
+/* ---------------------------------------------------------------------------------------------
+ * C05: thread-count / schedule sweep on the implementation
+ * ------------------------------------------------------------------------------------------ */
+
+pub fn direct_c05(ctx: &mut Ctx) {
+    use crate::gen::arch::{input_for, random_net, random_opt, target_for, ArchCfg};
+    use crate::gen::Gen;
+    let thorough = ctx.thorough();
+    let pools: Vec<usize> = vec![1, 2, 3, 5, 16, 33];
+    let reps = if thorough { 10 } else { 2 };
+    let sizes: Vec<usize> = if thorough { vec![63, 64, 65, 129, 300] } else { vec![63, 65, 129] };
+    let nets = if thorough { 8 } else { 3 };
+    let mut jobs = Vec::new();
+    {
+        let mut g = Gen::new(ctx);
+        let cfg = ArchCfg { final_dense: Some(3), max_layers: 4, max_dim: 4, dropout: true, ..ArchCfg::small() };
+        for i in 0..nets {
+            let (mut spec, out) = random_net(&mut g, &cfg);
+            spec.opt = Some(random_opt(&mut g));
+            let n = sizes[i % sizes.len()];
+            let xs: Vec<Tensor> = (0..n).map(|_| input_for(&mut g, &spec.input)).collect();
+            let ts: Vec<Tensor> = (0..n).map(|_| target_for(&mut g, &out, &spec.obj)).collect();
+            jobs.push((spec, xs, ts));
+        }
+    }
+    let mut evals = 0u64;
+    for (spec, xs, ts) in jobs.iter() {
+        // (train losses, val losses, val acc, final weights, validate, predictions) as bit patterns
+        let run = |threads: usize, jitter: u64| -> Result<Vec<u32>, String> {
+            let pool = rayon::ThreadPoolBuilder::new().num_threads(threads).build().map_err(|e| e.to_string())?;
+            neurons::verif::set_jitter(jitter);
+            let r = pool.install(|| {
+                net::try_run(|| {
+                    let mut n = net::build(spec).unwrap();
+                    let job = LearnJob { xs: xs[..xs.len().min(24)].to_vec(), ts: ts[..ts.len().min(24)].to_vec(),
+                        val: Some((xs.clone(), ts.clone(), 5)), batch: 5, epochs: 2, script: vec![] };
+                    let (tl, vl, va) = net::run_learn(&mut n, &job).unwrap();
+                    let xr: Vec<&Tensor> = xs.iter().collect();
+                    let tr: Vec<&Tensor> = ts.iter().collect();
+                    let (l, a) = n.validate(&xr, &tr, 0.1);
+                    let preds = n.predict_batch(&xr);
+                    let mut bits: Vec<u32> = Vec::new();
+                    for v in tl.iter().chain(vl.iter()).chain(va.iter()) { bits.push(v.to_bits()); }
+                    for p in net_params(&n) { for v in p { bits.push(v.to_bits()); } }
+                    bits.push(l.to_bits());
+                    bits.push(a.to_bits());
+                    for p in preds { for v in flat_any(&p) { bits.push(v.to_bits()); } }
+                    bits
+                })
+            });
+            neurons::verif::set_jitter(0);
+            r
+        };
+        let base = run(1, 0);
+        for &t in &pools {
+            for rep in 0..reps {
+                let r = run(t, if rep == 0 { 0 } else { ctx.seed.wrapping_mul(31).wrapping_add(rep as u64 * 977 + t as u64) | 1 });
+                evals += 1;
+                let same = match (&base, &r) {
+                    (Ok(a), Ok(b)) => a == b,
+                    (Err(a), Err(b)) => a == b,
+                    _ => false,
+                };
+                ctx.oracle(same, "schedule-dependent-result",
+                    "training, validation and batched prediction must give bit-identical results for every number of worker threads and every schedule",
+                    format!("{} with {} samples, pool of {} threads, repetition {}", clip(&spec.token(), 600), xs.len(), t, rep),
+                    "bit patterns differ from the single-thread run".into(), "bit-identical".into());
+            }
+        }
+    }
+    ctx.direct_evals += evals;
+    ctx.direct_distinct += evals;
+    ctx.notes.push(format!("{} networks x data-set sizes {:?} x pools {:?} x {} repetitions (jitter on from the 2nd): learn (E=2, B=5, with validation), validate, predict_batch compared bit for bit with the single-thread run", jobs.len(), sizes, pools, reps));
+}
